@@ -536,36 +536,27 @@ impl Branches<'_> {
         remaining_branches: &[&str],
         base_location: &BranchLocation,
     ) -> Result<Option<Path>> {
-        let mut longest_used_length = 0;
+        // Compare path *segments*, not characters: `adata` shares no directory with `a/data`
+        // or `a`, and `ab` shares none with `a/b`.
+        let segments: Vec<&str> = branch.split('/').collect();
+        let mut used_segments = 0;
         for &candidate in remaining_branches {
-            let common_len = branch
-                .chars()
-                .zip(candidate.chars())
-                .take_while(|(a, b)| a == b)
+            let common = segments
+                .iter()
+                .zip(candidate.split('/'))
+                .take_while(|(a, b)| *a == b)
                 .count();
-
-            if common_len > longest_used_length {
-                longest_used_length = common_len;
-            }
+            used_segments = used_segments.max(common);
         }
         // Means this branch path is used as a prefix of other branches
-        if longest_used_length == branch.len() {
+        if used_segments == segments.len() {
             return Ok(None);
         }
 
-        let mut used_relative_path = &branch[..longest_used_length];
-        if let Some(last_slash_index) = used_relative_path.rfind('/') {
-            used_relative_path = &used_relative_path[..last_slash_index];
-        }
-        let unused_dir = &branch[used_relative_path.len()..].trim_start_matches('/');
-        if let Some(sub_dir) = unused_dir.split('/').next() {
-            let relative_dir = format!("{}/{}", used_relative_path, sub_dir);
-            // Use base_location to generate the cleanup path
-            let absolute_dir = base_location.find_branch(Some(relative_dir))?;
-            Ok(Some(absolute_dir.path))
-        } else {
-            Ok(None)
-        }
+        // The shallowest directory that no remaining branch lives under
+        let relative_dir = segments[..=used_segments].join("/");
+        let absolute_dir = base_location.find_branch(Some(relative_dir))?;
+        Ok(Some(absolute_dir.path))
     }
 }
 
